@@ -204,11 +204,13 @@ inline DecodeOut decode(int desc, FragSet &fs, uint64_t fraglen, int force) {
 }
 
 struct ReconOut { int rc = 0; std::vector<uint8_t> out; bool untouched = true; };
-inline ReconOut reconstruct(int desc, FragSet &fs, uint64_t fraglen, int dest) {
+inline ReconOut reconstruct(int desc, FragSet &fs, uint64_t fraglen, int dest, const std::vector<uint8_t> *prefill = nullptr) {
     ReconOut r;
     size_t n = (size_t)fraglen;
     char *out = (char *)malloc(n ? n : 1);
     memset(out, 0xA5, n ? n : 1);
+    // what the caller's buffer held before is the caller's business: optionally it holds a stale fragment
+    if (prefill && !prefill->empty()) memcpy(out, prefill->data(), std::min(n, prefill->size()));
     r.rc = liberasurecode_reconstruct_fragment(desc, fs.ptrs, fs.count, fraglen, dest, out);
     r.out.assign((uint8_t *)out, (uint8_t *)out + n);
     for (size_t i = 0; i < n; i++) if ((uint8_t)out[i] != 0xA5) { r.untouched = false; break; }
@@ -319,6 +321,46 @@ inline size_t gen_length(const Config &g, size_t cap) {
     return std::min(len, cap);
 }
 
+// another configuration of the same back end ("sibling"): boundary shapes first - one data fragment, one parity
+// fragment, no parity at all (rs_vand), the largest stripe, the same shape again - then anything
+inline Config sibling_shape(const Config &g, int sel) {
+    Config s = g;
+    if (g.backend == ref::B_XOR) {
+        int idx = (sel / 8) % ref::N_XOR_SHAPES;
+        const ref::XorShape *cur = ref::xor_shape(g.k, g.m, g.hd);
+        if (sel % 8 != 4 && cur && cur == &ref::XOR_SHAPES[idx]) idx = (idx + 1) % ref::N_XOR_SHAPES;
+        if (sel % 8 == 4 && cur) return s;
+        s.k = ref::XOR_SHAPES[idx].k; s.m = ref::XOR_SHAPES[idx].m; s.hd = ref::XOR_SHAPES[idx].hd;
+        return s;
+    }
+    switch (sel % 8) {
+    case 0: s.k = 1; s.m = 2; break;
+    case 1: s.k = 1 + (sel / 8) % 10; s.m = 1; break;
+    case 2: if (g.backend == ref::B_RS) { s.k = 1 + (sel / 8) % 6; s.m = 0; } else { s.k = 2; s.m = 1; } break;
+    case 3: s.k = 1; s.m = 1; break;
+    case 4: break;
+    case 5: s.k = 31; s.m = 1; break;
+    case 6: s.k = 2 + (sel / 8) % 3; s.m = 32 - s.k; break;
+    default: s.k = 1 + (sel / 8) % 15; s.m = 1 + (sel / 128) % 8; break;
+    }
+    s.hd = s.m;
+    if (ref::is_isa(g.backend) && s.k + s.m > 32) { s.k = 4; s.m = 2; s.hd = 2; }
+    return s;
+}
+// create the sibling, optionally use it once (encode of a small buffer)
+inline std::unique_ptr<Instance> make_sibling(const Config &g, int sel, fw::Result &r) {
+    Config s = sibling_shape(g, sel);
+    std::unique_ptr<Instance> in(new Instance(s));
+    if (!in->ok()) { r.fail("create of a sibling configuration (k=" + std::to_string(s.k) + " m=" + std::to_string(s.m) + " hd=" + std::to_string(s.hd) + ") failed rc=" + std::to_string(in->desc)); return in; }
+    if ((sel >> 3) & 1) {
+        std::vector<uint8_t> d((size_t)s.k * ref::word_bytes(s) * 2 + 1, 0x6b);
+        Stripe st = encode(in->desc, s, d);
+        if (st.rc != 0) r.fail("encode on a sibling instance failed");
+    }
+    r.cls("sibling_created");
+    return in;
+}
+
 // Calls made on a descriptor BEFORE the call a check is about ("history" dimension of single-call oracles): each
 // entry is (kind, arg). The stripes handed in come from the pure reference serializer, so nothing here depends on
 // the library's own encode. Results of these calls are only checked where the answer is forced (rc 0 => exact);
@@ -327,12 +369,20 @@ inline size_t gen_length(const Config &g, size_t cap) {
 //   2 reconstruct own-configuration stripe      3 reconstruct a stripe written under ANOTHER checksum type
 //   4 the same with the destination supplied among the fragments      5 the same with too few fragments (fails)
 //   6 decode of a foreign-checksum-type stripe with too few fragments (fails)      7 metadata/validity queries
-inline void prehistory(int desc, const Config &g, const std::vector<int> &hist, fw::Result &r) {
+//   8 another instance of the same back end (sibling_shape) is created, maybe used, and destroyed again
+//   9 the same, but it stays alive until the case ends (returned through `keep`)
+inline void prehistory(int desc, const Config &g, const std::vector<int> &hist, fw::Result &r, std::vector<std::unique_ptr<Instance>> *keep = nullptr) {
     using namespace fw;
-    if (g.backend == ref::B_NULL) return;
     int n = g.n(), t = ref::tolerance(g);
     for (size_t h = 0; h + 1 < hist.size(); h += 2) {
         int kind = hist[h], arg = hist[h + 1];
+        if (kind == 8 || kind == 9) {
+            std::unique_ptr<Instance> sib = make_sibling(g, arg, r);
+            r.cls("prehistory_kind_" + std::to_string(kind));
+            if (kind == 9 && keep && sib->ok()) keep->push_back(std::move(sib));
+            continue;
+        }
+        if (g.backend == ref::B_NULL) continue;
         size_t len = (size_t)g.k * ref::word_bytes(g) * (1 + arg % 3) + (size_t)(arg % 5);
         std::vector<uint8_t> data(len);
         uint64_t sd = 4242 + (uint64_t)arg;
@@ -399,7 +449,7 @@ inline std::vector<int> gen_prehistory() {
     using namespace fw;
     std::vector<int> h;
     int nh = weighted({0, 3, 2, 1});
-    for (int i = 0; i < nh; i++) { h.push_back(1 + weighted({4, 2, 2, 2, 2, 1, 1})); h.push_back((int)pick(0, 1 << 12)); }
+    for (int i = 0; i < nh; i++) { h.push_back(1 + weighted({4, 2, 2, 2, 2, 1, 1, 4, 3})); h.push_back((int)pick(0, 1 << 12)); }
     return h;
 }
 
